@@ -142,6 +142,17 @@ def run_instance(payload):
                                 'round_trip': verdict})
         if not verdict:
             add_violation(res, ctx, args, detail, known)
+        if res.want_xval(('quoted' if quoted else 'plain') + ty):
+            m = ctx.model()
+            cargs = [model_bytes(m, a) for a in args]
+            try:
+                bytes(b for a in cargs for b in a).decode('utf-8')
+                out = run_replay(['linety', ty, hexs(NAME)] + [hexs(a) for a in cargs])
+                want = model_bytes(m, wire)
+                got = unhex(out['wire'][0]) if 'wire' in out else None
+                res.xval_result(got == want, 'native wire %r, symbolic wire %r' % (got, want), {'args': [hexs(a) for a in cargs], 'ty': ty})
+            except UnicodeDecodeError:
+                pass
         res.take_stats(ctx.stats)
         ctx.stats.__init__()
     res.wall_s = time.time() - t0
